@@ -153,6 +153,48 @@ def make(fedjax, name, case):
   return algs.build(fedjax, name, case, **kw)
 
 
+def problem(fedjax):
+  """The problem every history runs on: 4 clients, momentum on the server (a stateful optimizer state that a buggy round could donate)."""
+  import jax  # pylint: disable=g-import-not-at-top
+  R = island.R
+  # four parameters (a scalar leaf and a vector leaf): the stochastic quantisers only randomise entries strictly inside the
+  # range of their leaf, so a leaf needs at least three different entries for their keys to matter
+  data = [[[1, 0, 2, -1], [2, 1, 0, 3], [3, -1, 1, 1]], [[5, 2, -2, 0], [0, 0, 4, 1]], [[-2, 1, 3, 2]], [[4, -3, 0, 0], [1, 1, 1, -4], [0, 2, 5, 2], [2, 2, -1, 1]]]
+  h = {'bs': 2, 'epochs': 1, 'steps': None, 'drop': False, 'seed': 3, 'skip': False}
+  dss = island.datasets(fedjax, data)
+  dss = [fedjax.ClientDataset(dict(d.raw_examples, domain_id=(np.arange(len(d)) % 2).astype(np.int32))) for d in dss]
+  ids = island.client_ids(len(dss))
+  case = {'inst': {'data': data, 'init': [R(0), R(1), R(-1), R(2)], 'copt': island.opt_spec('sgd', 0.25), 'sopt': island.opt_spec('mom', 1, 0.5)}, 'h': h}
+  cohorts = {1: [1, 2], 2: [2, 3, 4], 3: [1, 2]}    # cohort 3 = cohort 1 again (repeated participation)
+  keys = {c: jax.random.split(jax.random.PRNGKey(40 + c), len(dss)) for c in cohorts}
+  return case, dss, ids, cohorts, keys
+
+
+def worker_main():
+  """Another interpreter (its own PYTHONHASHSEED) restores the state saved after round 1 and continues with rounds 2 and 3."""
+  import json  # pylint: disable=g-import-not-at-top
+  import sys  # pylint: disable=g-import-not-at-top
+  job = json.load(sys.stdin)
+  import fedjax  # pylint: disable=g-import-not-at-top
+  case, dss, ids, cohorts, keys = problem(fedjax)
+  out = {}
+  for name in job['names']:
+    try:
+      with open(os.path.join(job['dir'], name.replace(':', '_') + '.pkl'), 'rb') as f:
+        st = pickle.load(f)
+      alg = make(fedjax, name, case)[0]
+      recs = []
+      for c in (2, 3):
+        clients = [(ids[k - 1], dss[k - 1], keys[c][k - 1]) for k in cohorts[c]]
+        before = fingerprint(st)
+        st, diag = alg.apply(st, clients)
+        recs.append({'c': c, 'before': before, 'out': fingerprint(st) + '|' + fingerprint({repr(k): v for k, v in diag.items()})})
+      out[name] = recs
+    except Exception as ex:  # pylint: disable=broad-except
+      out[name] = {'error': f'{type(ex).__name__}: {str(ex)[:200]}'}
+  sys.stdout.write('\nRESULT ' + json.dumps(out) + '\n')
+
+
 def run(ctx):
   import jax  # pylint: disable=g-import-not-at-top
   import fedjax  # pylint: disable=g-import-not-at-top
@@ -171,16 +213,10 @@ def run(ctx):
     ctx.model_check('Purity', expect=inv, name=f'Purity_ctl_{tog}', constants=c, invariants=['Functional', 'Immutable', 'RoundtripTransparent'], coverage=False)
   ctx.require_actions(['ApplyStep', 'RoundtripStep'])
   hists = [j['hist'] for j in r.json]
-  # the problem: 4 clients, momentum on the server (a stateful optimizer state that a buggy round could donate)
-  R = island.R
-  data = [[[1, 0], [2, 1], [3, -1]], [[5, 2], [0, 0]], [[-2, 1]], [[4, -3], [1, 1], [0, 2], [2, 2]]]
-  h = {'bs': 2, 'epochs': 1, 'steps': None, 'drop': False, 'seed': 3, 'skip': False}
-  dss = island.datasets(fedjax, data)
-  dss = [fedjax.ClientDataset(dict(d.raw_examples, domain_id=(np.arange(len(d)) % 2).astype(np.int32))) for d in dss]
-  ids = island.client_ids(len(dss))
-  case = {'inst': {'data': data, 'init': [R(0), R(1)], 'copt': island.opt_spec('sgd', 0.25), 'sopt': island.opt_spec('mom', 1, 0.5)}, 'h': h}
-  cohorts = {1: [1, 2], 2: [2, 3, 4], 3: [1, 2]}    # cohort 3 = cohort 1 again (repeated participation)
-  keys = {c: jax.random.split(jax.random.PRNGKey(40 + c), len(dss)) for c in cohorts}
+  case, dss, ids, cohorts, keys = problem(fedjax)
+  xdir = os.path.join(ctx.scratch, 'xproc')
+  os.makedirs(xdir, exist_ok=True)
+  interns, evs = {}, {}
   per_alg = min(len(hists), 400) if big else 40   # (depth 4 gives ~3 000 histories; 400 per algorithm keeps thorough near 10 min)
   traces = []
   scratch_ckpt = os.path.join(ctx.scratch, 'ckpt')
@@ -202,6 +238,8 @@ def run(ctx):
                    'out': intern_v(fingerprint(new) + '|' + fingerprint({repr(k): v for k, v in diag.items()}))})
         line1.append(new)
         if c == 1:
+          with open(os.path.join(xdir, name.replace(':', '_') + '.pkl'), 'wb') as f:
+            pickle.dump(new, f)
           other.append(make(fedjax, name, case)[0])
           line2 = [pickle.loads(pickle.dumps(new))]
         else:
@@ -211,6 +249,7 @@ def run(ctx):
                      'out': intern_v(fingerprint(new2) + '|' + fingerprint({repr(k): v for k, v in diag2.items()}))})
           line2.append(pickle.loads(pickle.dumps(new2)))
       ctx.case(key=(name, 'continuation'), nontrivial=True)
+      interns[name], evs[name] = intern_v, ev
     except Exception as ex:  # pylint: disable=broad-except
       ctx.violation(f'exception:{name}:{type(ex).__name__}', f'{name}: {type(ex).__name__}: {str(ex)[:200]} during the continuation scenario', replay={'algorithm': name})
       continue
@@ -268,6 +307,24 @@ def run(ctx):
       ctx.case(key=(name, repr(hist)), nontrivial=reuse)
     if not broken:
       traces.append({'events': ev, 'meta': {'algorithm': name, 'histories': len(chosen)}})
+  # continuation in ANOTHER INTERPRETER (different PYTHONHASHSEED): the same calls must give the same outputs there
+  import json  # pylint: disable=g-import-not-at-top
+  import subprocess  # pylint: disable=g-import-not-at-top
+  import sys  # pylint: disable=g-import-not-at-top
+  env = dict(os.environ, PYTHONHASHSEED=str(4242 + ctx.seed))
+  pr = subprocess.run([sys.executable, '-c', 'from vf.props import c10; c10.worker_main()'], input=json.dumps({'names': sorted(evs), 'dir': xdir}),
+                      capture_output=True, text=True, env=env, timeout=3000)
+  if pr.returncode != 0 or '\nRESULT ' not in pr.stdout:
+    raise Machinery('c10 worker failed: ' + pr.stderr[-500:])
+  other_proc = json.loads(pr.stdout[pr.stdout.rindex('\nRESULT ') + 8:])
+  for name, recs in other_proc.items():
+    if isinstance(recs, dict):
+      ctx.violation(f'exception:{name}:other-process', f'{name}: {recs["error"]} when another interpreter continues from the restored round-1 state', replay={'algorithm': name})
+      continue
+    for rc in recs:
+      evs[name].append({'e': 'Call', 'key': f'{name}:apply(state={interns[name](rc["before"])}, cohort={cohorts[rc["c"]]}, keys#{rc["c"]})',
+                        'out': interns[name](rc['out']), 'where': 'another interpreter'})
+    ctx.case(key=(name, 'other-process'), nontrivial=True)
   verdicts, _ = vtraces.validate_batch(ctx, 'PureHistory', traces, {}, 'PH')
   for t, v in zip(traces, verdicts):
     if v.ok:
